@@ -8,6 +8,7 @@ global RNG state, interleaved unrelated calls and poisoned heap.
 import numpy as np
 
 from ..core.run import require
+from ..engines.simmpi import SimViolation
 from ..models import cluster as M
 from . import clcommon as C
 from . import clrun
@@ -33,6 +34,21 @@ REACH_EXPECTED = ['proposal_accepted', 'proposal_rejected', 'mpi_run', 'random_s
 
 def le(a, b, n):
     return a <= b * (1 + 4 * n * np.finfo(float).eps) + 1e-300
+
+
+def model_cost(P, g):
+    """mean squared distance of every frame to the centre it is assigned to, recomputed by the float64 model from the
+    returned centre indices and labels (not from the distances the library reports)"""
+    lab = np.asarray(g.labels).astype(int)
+    if lab.min() < 0 or lab.max() >= len(g.ci):
+        raise SimViolation('label_out_of_range', 'labels in [%d, %d] with %d centres' % (lab.min(), lab.max(), len(g.ci)))
+    D = np.array([P.model_metric(P.X, P.X[c]) for c in g.ci])
+    d = D[lab, np.arange(P.n)]
+    return float(np.mean(d * d))
+
+
+def le_model(a, b, P):
+    return a <= b * (1 + M.rtol_for(P.dtype) * 8) + 1e-300
 
 
 def centres_are_frames(P, g, where):
@@ -75,6 +91,7 @@ def scenario(ctx):
         st = clrun.State.of(g0)
         K = len(st.ci)
         hist = []
+        mcost = model_cost(P, g0)
         for s in range(t.irange(1, 6)):
             use_random = t.flag(1, 3)
             if use_random:
@@ -101,6 +118,10 @@ def scenario(ctx):
             require(len(g.ci) == K, 'cluster_count_changed', lambda: 'sweep %d: %d -> %d clusters' % (s, K, len(g.ci)))
             c0, c1 = st.cost(), M.cost(g.distances)
             require(le(c1, c0, n), 'cost_increased', lambda: 'sweep %d (%s): cost %.17g -> %.17g' % (s, hist[-1], c0, c1))
+            m1 = model_cost(P, g)
+            require(le_model(m1, mcost, P), 'cost_increased', lambda: 'sweep %d (%s): true cost of the returned centres and labels '
+                    '%.17g -> %.17g (reported distances say %.17g -> %.17g)' % (s, hist[-1], mcost, m1, c0, c1))
+            mcost = m1
             if not use_random:
                 ctx.hit('proposal_accepted' if g.ci != st.ci else 'proposal_rejected')
                 if len(st.ci) >= 2 and p != st.ci[cid]:
@@ -118,6 +139,7 @@ def scenario(ctx):
         T = t.irange(1, 5)
         form = 'estimator' if t.flag(1, 4) else 'function'
         costs = []
+        mcosts = []
         K0 = None
         for it in range(0, T + 1):
             g = run(dict(algo='hybrid', form=form, k=k, cutoff=cutoff, n_iters=it, random_state=rseed), suffix=str(it))
@@ -126,6 +148,12 @@ def scenario(ctx):
                 K0 = len(g.ci)
             require(len(g.ci) == K0, 'cluster_count_changed', lambda: 'n_iters=%d: %d clusters, k-centers gave %d' % (it, len(g.ci), K0))
             costs.append(M.cost(g.distances))
+            mcosts.append(model_cost(P, g))
+            require(le_model(mcosts[-1], mcosts[0], P), 'hybrid_worse_than_kcenters', lambda: 'k-hybrid n_iters=%d true cost %.17g > '
+                    'k-centers cost %.17g' % (it, mcosts[-1], mcosts[0]))
+            if form == 'function' and it >= 1:
+                require(le_model(mcosts[-1], mcosts[-2], P), 'cost_increased', lambda: 'n_iters %d -> %d: true cost %.17g -> %.17g' %
+                        (it - 1, it, mcosts[-2], mcosts[-1]))
             require(le(costs[-1], costs[0], n), 'hybrid_worse_than_kcenters',
                     lambda: 'k-hybrid n_iters=%d cost %.17g > k-centers cost %.17g' % (it, costs[-1], costs[0]))
             if form == 'function' and it >= 1:
@@ -144,11 +172,16 @@ def scenario(ctx):
         kk = t.irange(1, min(6, P.n))
         T = t.irange(2, 5)
         costs = []
+        mcosts = []
         for it in range(1, T + 1):
             g = run(dict(algo='kmedoids', form='function', k=kk, n_iters=it, random_state=rseed), suffix=str(it))
             centres_are_frames(P, g, 'cold k-medoids n_iters=%d:' % it)
             require(len(g.ci) == kk, 'cluster_count_changed', lambda: 'asked %d clusters, got %d' % (kk, len(g.ci)))
             costs.append(M.cost(g.distances))
+            mcosts.append(model_cost(P, g))
+            if it >= 2:
+                require(le_model(mcosts[-1], mcosts[-2], P), 'cost_increased', lambda: 'cold start, n_iters %d -> %d: true cost %.17g -> %.17g'
+                        % (it - 1, it, mcosts[-2], mcosts[-1]))
             if it >= 2:
                 require(le(costs[-1], costs[-2], n), 'cost_increased', lambda: 'cold start, n_iters %d -> %d: cost %.17g -> %.17g'
                         % (it - 1, it, costs[-2], costs[-1]))
